@@ -489,4 +489,53 @@ theorem capsule_closedOriented (nt np : Nat) (hnt : 3 ≤ nt) (hnp : 2 ≤ np) :
 example : ClosedOriented (capsuleIndices 3 2) 8 := capsule_closedOriented 3 2 (by omega) (by omega)
 example : ClosedOriented (capsuleIndices 5 7) 32 := capsule_closedOriented 5 7 (by omega) (by omega)
 
+/-! ## face counts: Euler characteristic 2 -/
+
+private theorem length_ring (bl bu n : Nat) (hn : 1 ≤ n) : (ring bl bu n).length = 2 * n := by
+  simp [ring, openRing, rectangle, List.length_flatMap]
+  omega
+
+private theorem length_degTopRing (bc pt n : Nat) (hn : 1 ≤ n) : (degTopRing bc pt n).length = n := by
+  simp [degTopRing, degOpenTopRing]; omega
+
+private theorem length_filledCircle (bc n : Nat) : (filledCircle bc n).length = n - 2 := by
+  simp [filledCircle]; omega
+
+private theorem length_ringStack (c nt k : Nat) (hn : 1 ≤ nt) : (ringStack c nt k).length = 2 * (k * nt) := by
+  simp [ringStack, List.length_flatMap, length_ring _ _ _ hn]
+  ring
+
+/-- **Euler characteristic 2** (`V − E + F = 2` with `2E = 3F`, i.e. `2V = F + 4`): together with `ClosedOriented` the
+cone buffer is combinatorially a sphere, not some other closed surface. -/
+theorem cone_euler (n : Nat) (hn : 3 ≤ n) : 2 * coneNumVertices n = (coneIndices n).length + 4 := by
+  simp only [coneIndices, coneNumVertices, List.length_append, length_degTopRing _ _ _ (by omega : 1 ≤ n),
+    length_filledCircle]
+  omega
+
+theorem cylinder_euler (n : Nat) (hn : 3 ≤ n) : 2 * cylinderNumVertices n = (cylinderIndices n).length + 4 := by
+  rw [cylinderIndices_eq]
+  simp only [cylinderNumVertices, List.length_append, length_ring _ _ _ (by omega : 1 ≤ n), length_filledCircle,
+    reverseClockwising, List.length_map]
+  omega
+
+theorem sphere_euler (nt np : Nat) (hnt : 3 ≤ nt) (hnp : 2 ≤ np) :
+    2 * sphereNumVertices nt np = (sphereIndices nt np).length + 4 := by
+  rw [sphereIndices_eq nt np hnp]
+  obtain ⟨m, rfl⟩ : ∃ m, np = m + 2 := ⟨np - 2, by omega⟩
+  simp only [sphereNumVertices, List.length_append, length_degTopRing _ _ _ (by omega : 1 ≤ nt),
+    length_ringStack _ _ _ (by omega : 1 ≤ nt), reverseClockwising, List.length_map, Nat.add_sub_cancel,
+    show m + 2 - 1 = m + 1 by omega, Nat.add_mul, Nat.one_mul, Nat.mul_add]
+  omega
+
+theorem capsule_euler (nt np : Nat) (hnt : 3 ≤ nt) (hnp : 2 ≤ np) :
+    2 * capsuleNumVertices nt np = (capsuleIndices nt np).length + 4 := by
+  have hp : 1 ≤ np / 2 := by omega
+  simp only [capsuleIndices, capsuleNumVertices, List.length_append, reverseClockwising, shiftIndices, List.length_map,
+    hemisphereIndices_eq nt _ hp, length_degTopRing _ _ _ (by omega : 1 ≤ nt), length_ringStack _ _ _ (by omega : 1 ≤ nt),
+    length_ring _ _ _ (by omega : 1 ≤ nt), hemisphereNumVertices]
+  obtain ⟨q, hq⟩ : ∃ q, np / 2 = q + 1 := ⟨np / 2 - 1, by omega⟩
+  rw [hq]
+  simp only [Nat.add_sub_cancel, Nat.add_mul, Nat.one_mul, Nat.mul_add]
+  omega
+
 end C19
